@@ -677,7 +677,8 @@ class Class(CanContainImportsDocumentable):
             self._mro = compute_mro(self)
         except ValueError as e:
             self.report(str(e), 'mro')
-            self._mro = list(self.allbases(True))
+            # Fallback: depth-first order, each base once.
+            self._mro = list(dict.fromkeys(self.allbases(True)))
     
     def _init_constructors(self) -> None:
         """
